@@ -618,6 +618,32 @@ func c17(c *Ctx) {
 					guarded, hasOper, hasServer = true, o, s2
 				}
 			}
+			// nothing else decides whether the sweep runs: in particular not whether the acting session itself is marked
+			// deleted (a services link that quits ends its pseudo-clients and itself in one entry)
+			extra := ""
+			for _, cond := range g.CondsAt(v) {
+				if cond.Tag != nil {
+					extra = astx.Str(cond.Expr)
+					continue
+				}
+				okCond := true
+				ast.Inspect(cond.Expr, func(n ast.Node) bool {
+					if se, ok := n.(*ast.SelectorExpr); ok {
+						if _, isField := info.Selections[se]; isField && se.Sel.Name != "Operator" && se.Sel.Name != "Server" {
+							okCond = false
+						}
+					}
+					if call, ok := n.(*ast.CallExpr); ok && astx.Builtin(info, call) == "" {
+						okCond = false
+					}
+					return true
+				})
+				if !okCond {
+					extra = astx.Str(cond.Expr)
+				}
+			}
+			r.Check(extra == "", "C17.Y4", mds.Name(), "the sweep depends only on the acting session's role", c.P.Pos(sweep.Pos()), "dominating conditions: look-up succeeded, s.Server || s.Operator",
+				"whether sessions marked deleted are swept depends on a further condition ("+extra+"): e.g. when the acting services link is itself marked deleted the function returns before the sweep, and the pseudo-clients it ended stay in the session table and in snapshots")
 			okCover := !guarded || ((!needOper || hasOper) && (!needServer || hasServer))
 			r.Check(okCover, "C17.Y4", mds.Name(), "sweep runs for every role that can end another session", c.P.Pos(sweep.Pos()), "guard covers s.Operator (KILL) and s.Server (services)",
 				"MaybeDeleteSession sweeps sessions marked deleted only for some of the roles that can end somebody else's session: a session killed by the uncovered role stays in the session table, keeps its secret valid and is written into snapshots")
